@@ -209,6 +209,48 @@ Definition mac_input (o : secop) : option bytes :=
 Definition enc_input (o : secop) : option bytes :=
   option_map (fun aad => enc_structure (op_kind o) (op_protected o) aad) (op_aad o).
 
+(** * Endpoint IDs as the decoder keeps them
+
+    A received EID item is turned into a URI string ([EidField.m2i]) and is
+    re-encoded from that string whenever the block is built again
+    ([EidField.i2m], through [urllib.parse.urlsplit]): the fragment ('#'...)
+    and query ('?'...) parts are dropped, an authority with an empty path gets
+    the path "/", an empty authority is dropped, and the SSP text "none"
+    becomes the integer 0.  Everything computed from a *decoded* block (the
+    primary block bound into the AAD, the security source) sees only this
+    normal form. *)
+Fixpoint cut_at (c : N) (s : bytes) : bytes :=
+  match s with
+  | [] => []
+  | x :: t => if x =? c then [] else x :: cut_at c t
+  end.
+
+Fixpoint span_not_slash (s : bytes) : bytes * bytes :=
+  match s with
+  | [] => ([], [])
+  | x :: t => if x =? 47 then ([], s) else let (a, r) := span_not_slash t in (x :: a, r)
+  end.
+
+Definition norm_dtn_ssp (s : bytes) : bytes :=
+  let s1 := cut_at 63 (cut_at 35 s) in
+  match s1 with
+  | 47 :: 47 :: rest =>
+      let (auth, path) := span_not_slash rest in
+      match auth with
+      | [] => path
+      | _ => 47 :: 47 :: auth ++ (match path with [] => [47] | _ => path end)
+      end
+  | _ => s1
+  end.
+
+Definition eid_norm (v : cbor) : cbor :=
+  match v with
+  | CArr [CUint 1; CTstr s] =>
+      if bytes_eqb s [110; 111; 110; 101] then CArr [CUint 1; CUint 0]
+      else CArr [CUint 1; CTstr (norm_dtn_ssp s)]
+  | _ => v
+  end.
+
 (** * COSE messages and the Abstract Security Block *)
 
 Record recipient := mkRcp { r_protected : bytes; r_unprot : list (cbor * cbor); r_wrapped : bytes }.
@@ -264,7 +306,7 @@ Definition asb_of_items (l : list cbor) : option asb :=
             match rest with
             | [ps; rs] =>
                 match pairs_of ps, results_of rs with
-                | Some p, Some r => Some (mkASB ts cid fl src p r)
+                | Some p, Some r => Some (mkASB ts cid fl (eid_norm src) p r)
                 | _, _ => None
                 end
             | _ => None
@@ -273,7 +315,7 @@ Definition asb_of_items (l : list cbor) : option asb :=
             match rest with
             | [rs] =>
                 match results_of rs with
-                | Some r => Some (mkASB ts cid fl src [] r)
+                | Some r => Some (mkASB ts cid fl (eid_norm src) [] r)
                 | None => None
                 end
             | _ => None
@@ -672,7 +714,15 @@ Definition cblock_of (v : cbor) : option cblock :=
   | _ => None
   end.
 
-Definition primary_of (v : cbor) : option (list cbor) :=
+Definition norm_primary (l : list cbor) : list cbor :=
+  match l with
+  | v :: f :: c :: d :: s :: r :: rest => v :: f :: c :: eid_norm d :: eid_norm s :: eid_norm r :: rest
+  | _ => l
+  end.
+
+(** the primary block items as the receiver holds them (CRC value dropped,
+    EIDs in decoded normal form) and as they are on the wire *)
+Definition primary_raw_of (v : cbor) : option (list cbor) :=
   match v with
   | CArr l =>
       match pri_crct l with
@@ -684,6 +734,8 @@ Definition primary_of (v : cbor) : option (list cbor) :=
       end
   | _ => None
   end.
+
+Definition primary_of (v : cbor) : option (list cbor) := option_map norm_primary (primary_raw_of v).
 
 Definition bundle_of_cbor (v : cbor) : option bundle :=
   match v with
@@ -699,6 +751,13 @@ Definition parse_bundle (wire : bytes) : option bundle :=
   match decode_all 12 wire with
   | Some v => bundle_of_cbor v
   | None => None
+  end.
+
+(** the primary block items exactly as on the wire (no EID normalisation) *)
+Definition wire_primary_raw (wire : bytes) : option (list cbor) :=
+  match decode_all 12 wire with
+  | Some (CArr (p :: _)) => primary_raw_of p
+  | _ => None
   end.
 
 (** ** Observations used by the harness *)
